@@ -88,8 +88,10 @@ class SingleHostAddr(ArrayCBORSerializable):
         self._CODE = 0
         self.port = port
 
-        self.ipv4 = self.bytes_to_ipv4(ipv4)
-        self.ipv6 = self.bytes_to_ipv6(ipv6)
+        # An address given as text is kept in the text form of its bytes ("01.2.3.4" and "1.2.3.4" are one address):
+        # that is the form decoding returns, so a relay equals its own round trip
+        self.ipv4 = self.bytes_to_ipv4(self.ipv4_to_bytes(ipv4))
+        self.ipv6 = self.bytes_to_ipv6(self.ipv6_to_bytes(ipv6))
 
     @staticmethod
     def ipv4_to_bytes(ip_address: Optional[str | bytes] = None) -> bytes | None:
